@@ -11,6 +11,7 @@ import (
 	"sync"
 	"time"
 
+	amhelp "github.com/pancsta/asyncmachine-go/pkg/helpers"
 	am "github.com/pancsta/asyncmachine-go/pkg/machine"
 	ss "github.com/pancsta/asyncmachine-go/pkg/states"
 	ampipe "github.com/pancsta/asyncmachine-go/pkg/states/pipes"
@@ -116,6 +117,14 @@ func (eng) Cases(seed uint64, tier string) []core.CaseDesc {
 	// the target being in Exception already or not
 	for k := 0; k < 8; k++ {
 		cs = append(cs, mk(fmt.Sprintf("errpipe/%02d", k), "errpipe", uint64(k), pipeP{}))
+	}
+	// helpers.NewMirror (flat and plain) under quick toggles of the source
+	nm := 4
+	if tier == "thorough" {
+		nm = 60
+	}
+	for k := 0; k < nm; k++ {
+		cs = append(cs, mk(fmt.Sprintf("mirror/%03d", k), "mirror", seed*7000003+uint64(k), pipeP{}))
 	}
 	// BindConnected with some of its four (optional) target states left out
 	for k := 1; k < 15; k++ {
@@ -499,8 +508,67 @@ func (e eng) Run(c core.CaseDesc, tier string) *core.CaseResult {
 		runErrPipe(res, c)
 	case "optional":
 		runOptional(res, c)
+	case "mirror":
+		runMirror(res, c)
 	}
 	return res
+}
+
+// runMirror: a mirror machine made by helpers.NewMirror follows its source.
+// The flat mirror forwards synchronously (its skip tests see what the previous
+// forward did), so it has to equal the source after every burst of quick
+// toggles, whatever the scheduler does; the plain mirror forwards in forked
+// goroutines, whose reordering is the known finding of the Bind family and is
+// not judged here.
+func runMirror(res *core.CaseResult, c core.CaseDesc) {
+	r := gen.NewRand(c.Seed, 181)
+	src := am.New(context.Background(), am.Schema{"A": {}, "B": {}}, &am.Opts{Id: "c18ms", DontLogId: true, DontLogStackTrace: true})
+	defer src.Dispose()
+	if r.IntN(2) == 0 {
+		src.Add1("A", nil)
+	}
+	h := &struct {
+		AState am.HandlerFinal
+		AEnd   am.HandlerFinal
+		BState am.HandlerFinal
+		BEnd   am.HandlerFinal
+	}{}
+	mirror, err := amhelp.NewMirror("c18mm", true, src, h, am.S{"A", "B"})
+	if err != nil {
+		res.Inconclusive = "NewMirror: " + err.Error()
+		return
+	}
+	defer mirror.Dispose()
+	for round := 0; round < 40; round++ {
+		n := 2 + r.IntN(6)
+		var log []string
+		for i := 0; i < n; i++ {
+			st := []string{"A", "B"}[r.IntN(2)]
+			if src.Is1(st) {
+				src.Remove1(st, nil)
+				log = append(log, "-"+st)
+			} else {
+				src.Add1(st, nil)
+				log = append(log, "+"+st)
+			}
+		}
+		// quiescence of both
+		ok := false
+		for i := 0; i < 3000 && !ok; i++ {
+			ok = mirror.QueueLen() == 0 && mirror.Transition() == nil && src.QueueLen() == 0 && src.Transition() == nil &&
+				mirror.Is1("A") == src.Is1("A") && mirror.Is1("B") == src.Is1("B")
+			if !ok {
+				time.Sleep(time.Millisecond)
+			}
+		}
+		res.Evals++
+		if !ok {
+			res.Violate("C18/mirror/flat/diverged", fmt.Sprintf("round %d: after the toggles %v the source is %s, the flat mirror %s (3s after the source went quiet)", round, log, src.String(), mirror.String()), nil)
+			return
+		}
+	}
+	res.Key("mirror", "flat")
+	res.Count("flat_mirror_bursts", 40)
 }
 
 // runOptional: BindConnected documents each of its four target states as
